@@ -46,6 +46,21 @@ FUNCTIONS = [
     ('filter_process', 'dataflows.processors.filter_rows', ['process_resource']),
     ('deduper', 'dataflows.processors.deduplicate', ['deduper']),
     ('unpivot_rows', 'dataflows.processors.unpivot', ['unpivot_rows']),
+    # the row-phase dispatch loops of the selector-taking processors ('@for:k' = the k-th `for` statement of the body)
+    ('loop_filter_rows', 'dataflows.processors.filter_rows', ['filter_rows', 'func', '@for:-1']),
+    ('loop_deduplicate', 'dataflows.processors.deduplicate', ['deduplicate', 'func', '@for:-1']),
+    ('loop_sort_rows', 'dataflows.processors.sort_rows', ['sort_rows', 'func', '@for:-1']),
+    ('loop_find_replace', 'dataflows.processors.find_replace', ['find_replace', 'func', '@for:-1']),
+    ('loop_parallelize', 'dataflows.processors.parallelize', ['parallelize', 'func', '@for:-1']),
+    ('loop_set_primary_key', 'dataflows.processors.set_primary_key', ['set_primary_key', 'func', '@for:-1']),
+    ('loop_update_resource', 'dataflows.processors.update_resource', ['update_resource', 'func', '@for:-1']),
+    ('loop_update_schema', 'dataflows.processors.update_schema', ['update_schema', 'func', '@for:-1']),
+    ('loop_delete_fields', 'dataflows.processors.delete_fields', ['delete_fields', 'func', '@for:-1']),
+    ('loop_select_fields', 'dataflows.processors.select_fields', ['select_fields', 'func', '@for:-1']),
+    ('loop_rename_fields', 'dataflows.processors.rename_fields', ['rename_fields', 'func', '@for:-1']),
+    ('loop_add_computed_field', 'dataflows.processors.add_computed_field', ['add_computed_field', 'func', '@for:-1']),
+    ('loop_unpivot', 'dataflows.processors.unpivot', ['unpivot', 'func', '@for:-1']),
+    ('loop_delete_resource', 'dataflows.processors.delete_resource', ['delete_resource', 'func', '@for:-1']),
 ]
 AGG_KEYS = ['sum', 'avg', 'median', 'max', 'min', 'first', 'last', 'count', 'any', 'set', 'array', 'counters']
 
@@ -178,11 +193,23 @@ class Tr:
         return out if len(gens) == 1 or mode != '.list' else self.call('flatten', [out])
 
     def callexpr(self, n):
-        if n.keywords:
-            return self.unsup('keyword arguments')
-        if any(isinstance(a, ast.Starred) for a in n.args):
+        if any(isinstance(a, ast.Starred) for a in n.args) or any(k.arg is None for k in n.keywords):
             return self.unsup('star arguments')
         args = [self.e(a) for a in n.args]
+        # keyword arguments travel as trailing (name, value) pairs; only external callables accept them
+        kwargs = [self.call('mk.tuple', ['(.const (.str %s))' % lean_str(k.arg), self.e(k.value)]) for k in n.keywords]
+        if kwargs:
+            f = n.func
+            name = None
+            if isinstance(f, ast.Name) and f.id not in BUILTIN_CALLS and f.id != 'isinstance':
+                name = f.id
+            elif isinstance(f, ast.Attribute) and isinstance(f.value, ast.Name) and f.value.id in ('collections', 'copy'):
+                name = f.attr if BCTOR.get(f.attr) is None else None
+            elif isinstance(f, ast.Attribute) and BCTOR.get('.' + f.attr) is None:
+                return self.call('.' + f.attr, [self.e(f.value)] + args + kwargs)
+            if name is None:
+                return self.unsup('keyword arguments of a builtin')
+            return self.call(name, args + kwargs)
         f = n.func
         if isinstance(f, ast.Name) and f.id in ('any', 'all') and len(n.args) == 1 \
                 and isinstance(n.args[0], (ast.GeneratorExp, ast.ListComp)) and isinstance(n.args[0], ast.GeneratorExp):
@@ -288,6 +315,9 @@ class Tr:
         return self.sunsup(type(n).__name__)
 
     def fn(self, node, extra=()):
+        if isinstance(node, ast.stmt) and not isinstance(node, ast.FunctionDef):
+            # a statement taken out of its function: its free variables are the caller's business
+            return '{ params := [%s], body := %s, gen := true }' % (', '.join(lean_str(p) for p in extra), self.s(node))
         if isinstance(node, ast.Lambda):
             a = node.args
             body = '(.ret %s)' % self.e(node.body)
@@ -325,6 +355,13 @@ def module_tree(modname):
 def locate(tree, path):
     node = tree
     for name in path:
+        if name.startswith('@for:'):
+            fors = [st for st in getattr(node, 'body', []) if isinstance(st, ast.For)]
+            k = int(name[5:])
+            if not fors or not (-len(fors) <= k < len(fors)):
+                return None
+            node = fors[k]
+            continue
         found = None
         for child in ast.iter_child_nodes(node) if not isinstance(node, ast.Module) else node.body:
             if isinstance(child, (ast.FunctionDef, ast.ClassDef)) and child.name == name:
